@@ -140,6 +140,7 @@ def havoc(ex, env, modified):
       h['bag'] = z3.Const(n + '.bag', h['bag'].sort())
       h['len'] = z3.Const(n + '.len', h['len'].sort())
       h['desc'] = z3.Const(n + '.desc', h['desc'].sort())
+      h['heap'] = z3.Const(n + '.heap', h['heap'].sort())
       h['alloc'] = z3.Int(n + '.alloc')
       continue
     if '.' in m:
